@@ -420,6 +420,189 @@ def u_finish(c):
     c.oblige("post/idle-streams-listen-for-the-peer's-close", ("maybe_add_error_listener",) in s.calls)
 
 
+@unit("C11", "BaseIOStream._try_inline_read", [(M, "BaseIOStream._try_inline_read")])
+def u_try_inline(c):
+    """callees under contract: _find_read_pos (a position or None, or UnsatisfiableReadError), _read_to_buffer_loop (likewise), _read_from_buffer(pos), _check_closed, _add_io_state"""
+    import tornado.iostream as IO
+    s, g = mk(c)
+    first = c.choose("_find_read_pos", ["a-position", "None", "UnsatisfiableReadError"])
+    closed = c.choose("stream", ["open", "closed"])
+    loop = c.choose("_read_to_buffer_loop", ["a-position", "None", "UnsatisfiableReadError", "closes-the-stream-and-None"])
+    pos1, pos2 = c.int("pos1"), c.int("pos2")
+    s._closed_flag = closed == "closed"
+    log = []
+
+    def find():
+        log.append("find")
+        if first == "UnsatisfiableReadError":
+            raise IO.UnsatisfiableReadError("x")
+        return pos1 if first == "a-position" else None
+
+    def rloop():
+        log.append("loop")
+        if loop == "UnsatisfiableReadError":
+            raise IO.UnsatisfiableReadError("x")
+        if loop.startswith("closes"):
+            s._closed_flag = True
+            return None
+        return pos2 if loop == "a-position" else None
+    s._find_read_pos, s._read_to_buffer_loop = find, rloop
+    s._read_from_buffer = lambda pos: log.append(("read_from_buffer", pos))
+    s._add_io_state = lambda st: log.append(("add_io_state", st))
+    s._check_closed = lambda: c.fn(M, "BaseIOStream._check_closed")(s)
+    out = c.call(c.fn(M, "BaseIOStream._try_inline_read"), s)
+    c.only_raises(out, (IO.UnsatisfiableReadError, IO.StreamClosedError))
+    c.cover("inline/%s/%s" % (first, closed))
+    delivered = [x for x in log if isinstance(x, tuple) and x[0] == "read_from_buffer"]
+    listening = [x for x in log if isinstance(x, tuple) and x[0] == "add_io_state"]
+    if first == "a-position":
+        c.oblige("post/buffered-data-that-satisfies-the-request-is-delivered-at-once-even-on-a-closed-stream", out.returned and len(delivered) == 1 and delivered[0][1] is pos1 and "loop" not in log and listening == [])
+    elif first == "UnsatisfiableReadError":
+        c.oblige("post/an-unsatisfiable-request-is-reported-to-the-caller", out.raised and isinstance(out.exc, IO.UnsatisfiableReadError) and delivered == [])
+    elif closed == "closed":
+        c.oblige("post/a-closed-stream-that-cannot-satisfy-the-request-raises-StreamClosedError-without-touching-the-transport", out.raised and isinstance(out.exc, IO.StreamClosedError) and "loop" not in log and delivered == [])
+    elif loop == "a-position":
+        c.oblige("post/what-the-transport-has-ready-is-read-and-delivered", out.returned and len(delivered) == 1 and delivered[0][1] is pos2 and listening == [])
+    elif loop == "UnsatisfiableReadError":
+        c.oblige("post/an-unsatisfiable-request-is-reported-to-the-caller", out.raised and isinstance(out.exc, IO.UnsatisfiableReadError) and delivered == [])
+    elif loop == "None":
+        c.oblige("post/otherwise-the-stream-waits-for-read-events", out.returned and delivered == [] and len(listening) == 1 and listening[0][1] == IO.ioloop.IOLoop.READ)
+    else:
+        c.oblige("post/a-stream-closed-while-reading-does-not-register-for-events", out.returned and delivered == [] and listening == [])
+
+
+@unit("C11", "read-entry-points", [(M, "BaseIOStream.read_bytes"), (M, "BaseIOStream.read_until"), (M, "BaseIOStream.read_until_regex"), (M, "BaseIOStream.read_until_close"), (M, "BaseIOStream._start_read")])
+def u_entry(c):
+    """each entry point registers exactly its own kind of request, hands back the one pending future, and tries to satisfy it at once; a second read while one is pending is refused"""
+    import re as _re
+    import tornado.iostream as IO
+    s, g = mk(c)
+    which = c.choose("entry-point", ["read_bytes", "read_bytes-partial", "read_until", "read_until-max_bytes", "read_until_regex", "read_until_close", "read_until_close-on-a-closed-stream"])
+    inline = c.choose("_try_inline_read", ["returns", "UnsatisfiableReadError", "StreamClosedError"])
+    already = c.choose("another-read-pending", [False, True])
+    log = []
+
+    def try_inline():
+        log.append(("try_inline", s._read_bytes, s._read_partial, s._read_delimiter, s._read_regex, s._read_max_bytes, getattr(s, "_read_until_close", False)))
+        if inline == "UnsatisfiableReadError":
+            raise IO.UnsatisfiableReadError("x")
+        if inline == "StreamClosedError":
+            raise IO.StreamClosedError()
+    s._try_inline_read = try_inline
+    s._start_read = lambda: c.fn(M, "BaseIOStream._start_read")(s)
+    s._check_closed = lambda: c.fn(M, "BaseIOStream._check_closed")(s)
+    s._finish_read = lambda size: log.append(("finish_read", size))
+    s._read_until_close = False
+    if which.endswith("closed-stream"):
+        s._closed_flag = True
+    if already:
+        s._read_future = object()
+    n = c.choose("num_bytes", [0, 1, 4096])          # (read_bytes asserts a numbers.Integral: a concrete count; the arithmetic on it is _find_read_pos's, proved symbolically)
+    name = which.split("-")[0]
+    args = {"read_bytes": (n,), "read_bytes-partial": (n, True), "read_until": (b"\r\n",), "read_until-max_bytes": (b"\r\n", 17), "read_until_regex": (rb"\r?\n", 9), "read_until_close": (),
+            "read_until_close-on-a-closed-stream": ()}[which]
+    out = c.call(c.fn(M, "BaseIOStream." + name), s, *args)
+    c.only_raises(out, (AssertionError, IO.StreamClosedError, IO.UnsatisfiableReadError))
+    c.cover("entry/%s" % which)
+    if already:
+        c.oblige("post/a-second-read-while-one-is-pending-is-refused-and-changes-nothing", out.raised and log == [] and s._read_bytes is None and s._read_delimiter is None and s._read_regex is None)
+        return
+    if which.endswith("closed-stream"):
+        c.oblige("post/read_until_close-on-a-closed-stream-delivers-what-is-buffered", out.returned and log == [("finish_read", s._read_buffer_size)] and out.value is s._read_future)
+        return
+    want = {"read_bytes": (n, False, None, None, None, False), "read_bytes-partial": (n, True, None, None, None, False), "read_until": (None, False, b"\r\n", None, None, False),
+            "read_until-max_bytes": (None, False, b"\r\n", None, 17, False), "read_until_regex": (None, False, None, "regex", 9, False), "read_until_close": (None, False, None, None, None, True)}[which]
+    ok = len(log) == 1 and log[0][0] == "try_inline"
+    if ok:
+        got = log[0][1:]
+        ok = (got[0] is want[0] or got[0] == want[0]) and got[1] == want[1] and got[2] == want[2] and got[4] == want[4] and got[5] == want[5] and ((got[3] is None) == (want[3] is None))
+        if want[3] is not None and got[3] is not None:
+            ok = ok and got[3].pattern == rb"\r?\n"
+    c.oblige("post/exactly-this-kind-of-request-is-registered-before-the-inline-attempt", ok)
+    if inline == "returns":
+        c.oblige("post/the-one-pending-future-is-returned", out.returned and out.value is s._read_future and s._read_future is not None)
+    elif inline == "UnsatisfiableReadError" and name in ("read_until", "read_until_regex"):
+        c.oblige("post/a-delimiter-that-cannot-come-within-max_bytes-closes-the-stream-and-the-future-is-still-returned", out.returned and len([x for x in s.calls if x[0] == "close"]) == 1 and out.value is not None)
+    else:
+        c.oblige("post/other-failures-reach-the-caller", out.raised)
+
+
+class UBuf:
+    """the caller's bytearray handed to read_into, under its contract: fixed length, a prefix of it filled so far (abstract byte string `view` of exactly that length)"""
+    def __init__(self, c, view):
+        self.c, self.view = c, view
+
+    def __pyvc_len__(self):
+        return SInt(z3.Length(self.view.t))
+
+    def __setitem__(self, k, data):
+        assert isinstance(k, slice) and k.step is None and k.start is None
+        d = data.data if isinstance(data, _Slice) else data
+        n = SInt(z3.Length(d.t)) if isinstance(d, SStr) else len(d)
+        if k.stop is None:
+            self.c.oblige("requires/whole-buffer-assignment-keeps-the-length", n == self.__pyvc_len__(), kind="requires")
+            self.view = d
+        else:
+            self.c.oblige("requires/slice-assignment-keeps-the-length", And(n == k.stop, k.stop <= self.__pyvc_len__()), kind="requires")
+            self.view = d + self.view[k.stop:]
+
+
+@unit("C11", "BaseIOStream.read_into.buffer-swap", [(M, "BaseIOStream.read_into"), (M, "BaseIOStream._finish_read")])
+def u_read_into(c):
+    """user-buffer mode: consumed ++ buf[:size] ++ saved-rest == delivered after the swap; _finish_read restores the saved rest as the read buffer and reports the count"""
+    if not c.symbolic:
+        c.cover("read_into/concrete-runs-are-the-stand-in's")
+        c.oblige("post/(the unmodified read_into is exercised on real bytearrays by the stand-in)", True)
+        return
+    s, g = mk(c)
+    c.assume(inv(c, s, g))
+    view0, size0 = s._read_buffer.view, s._read_buffer_size
+    ub = c.bytes("user_buffer_initial")
+    buf = UBuf(c, ub)
+    n = SInt(z3.Length(ub.t))
+    partial = c.choose("partial", [False, True])
+    log = []
+    s._try_inline_read = lambda: log.append("try_inline")
+    s._start_read = lambda: "future"
+    out = c.call(c.fn(M, "BaseIOStream.read_into"), s, buf, partial)
+    c.only_raises(out, ())
+    c.cover("read_into/swap")
+    if out.raised:
+        return
+    c.oblige("post/the-caller's-buffer-is-the-read-buffer-now-and-the-request-is-for-its-whole-length", s._read_buffer is buf and s._user_read_buffer is True and s._read_bytes == n and s._read_partial == partial and log == ["try_inline"])
+    size = s._read_buffer_size
+    rest = s._after_user_read_buffer.view if s._after_user_read_buffer is not None else b""
+    k = SInt(z3.If(size0.t >= n.t, n.t, size0.t))          # bytes of the caller's buffer filled so far (the size counter keeps the number that was available, which may exceed it until _finish_read)
+    filled = buf.view[0:k]
+    c.oblige("post/what-was-buffered-went-to-the-front-of-the-caller's-buffer-in-order", And(size == size0, filled == view0[0:k]))
+    c.oblige("post/nothing-is-lost: consumed ++ filled part ++ saved rest == delivered", Or(And(size0 >= n, g["consumed"] + filled + rest == g["delivered"]), And(size0 < n, g["consumed"] + filled == g["delivered"], s._after_user_read_buffer is None)))
+    c.oblige("post/the-caller's-buffer-keeps-its-length", SInt(z3.Length(buf.view.t)) == n)
+    # now the request is satisfied (the buffer is full): _finish_read hands back the count and restores the saved rest
+    got = []
+
+    class Fut:
+        def done(self):
+            return False
+
+        def cancelled(self):
+            return False
+
+        def set_result(self, v):
+            got.append(v)
+    s._read_future = Fut()
+    saved = s._after_user_read_buffer
+    o2 = c.call(c.fn(M, "BaseIOStream._finish_read"), s, n)
+    c.only_raises(o2, ())
+    if o2.raised:
+        return
+    c.oblige("post/_finish_read-reports-the-number-of-bytes-not-a-copy", got == [n] or (len(got) == 1 and got[0] is n))
+    restored = s._read_buffer
+    rv = restored.view if isinstance(restored, RBuf) else bytes(restored)
+    sv = saved.view if saved is not None else b""
+    c.oblige("post/normal-mode-is-restored-with-the-saved-rest-as-the-buffer", And(s._user_read_buffer is False and s._after_user_read_buffer is None, rv == sv,
+                                                                                   s._read_buffer_size == (SInt(z3.Length(rv.t)) if isinstance(rv, SStr) else len(rv))))
+
+
 # ---------------------------------------------------------------------------------- bounded stand-in
 def standin(tier, seed):
     import asyncio
